@@ -196,6 +196,7 @@ pub fn run(env: &Env) -> PropRun {
     let es = enum_single();
     parts.push(run_part(env, "enum-single-commands", es.len(), true, "sizes {1x1,2x2,3x4,5x3} x primary/alternate x {wrapped,unwrapped,sparse} content x every cursor cell incl. wrap-pending x 40 single mutating commands", &|i| es.get(i).cloned(), &j));
     parts.push(random_part(env, "large-screens", env.tier.scale(1_500, 30), &gen_large, &j));
+    parts.push(random_part(env, "many-calls", env.tier.scale(200, 20), &|s: &mut Src, i| super::c01::gen_many_calls(s, i), &j));
     parts.push(random_part(env, "single-op-calls", env.tier.scale(100_000, 40), &gen_single_ops, &j));
     parts.push(random_part(env, "multi-op-calls", env.tier.scale(80_000, 40), &gen_multi, &j));
     PropRun {
